@@ -217,6 +217,14 @@ def bounded_contract(ctx, name, n=None):
         ctx.samples.append({"concrete_case_of": name, "args": valid[0]["args"], "status": valid[0]["status"]})
 
 
+def bounded_if_present(ctx, pid=None, **kw):
+    pid = pid or ctx.pid
+    if os.path.exists(os.path.join(VERIF, "rt", f"bounded_{pid}.py")):
+        return bounded_run(ctx, f"rt.bounded_{pid}", **kw)
+    ctx.notes.append(f"no bounded stand-in module for {pid}")
+    return None
+
+
 def bounded_run(ctx, module, params=None, timeout=None, jit=False):
     """Run a bounded stand-in module (rt/bounded_*.py) on the real code; one Ob per contract clause."""
     timeout = timeout or (900 if ctx.tier == "quick" else 3600)
